@@ -7,6 +7,11 @@ NOTES = ("All checks: ./check <ID> quick|thorough; exit 0 held / 1 VIOLATION / 2
          "every run. known_findings.json lists open findings and fixed: records; replays/<ID>/ holds committed regression cases.")
 NOT_APPLICABLE = {}
 CHECKS = {
+    "C03": {
+        "technique": "property-based testing against a reference model: Hypothesis-generated (model shape, 1-4 stacked name_mapping providers from the full parameter grammar) programs, each evaluated under the three debug modes on inputs built by walking the reference layout (every mapped key present / absent / ill-typed, container nodes of right / wrong kind, unknown keys, short / long lists); oracle = independent reference layout model written from extended-usage.rst (overlay merge, generated key, map lookup, skip > only, validity, load / dump behaviour incl. extra_in / extra_out / omit_default / list gaps)",
+        "text": "Exploration over generated loader / dumper programs: creation validity, loaded objects and delivered extras, error classification (ALL: multiset of absolute trails + key sets; FIRST / DISABLE: membership), dumped data with exact types.",
+        "note": "Trusted: the reference layout model (props/c03_model_layout.py, section RefLayout). Modelled as observed and consistent between loader and dumper: TypedDict fields ordered by name in list layouts, containers of nested paths always dumped / required. Two open known findings (container skeleton in collected extras - pinned by the suite; omit_default compares the dumped value).",
+    },
     "C10": {
         "technique": "bounded exhaustive enumeration against a reference evaluator + property-based sampling: every enumerated predicate expression (atoms, chains <= 3, negations, binary combinations) is evaluated on every location stack of a bounded universe and compared with an independent evaluator written from the tutorial; documented identities and boolean laws compared as truth tables; deeper expressions / stacks sampled by Hypothesis; end-to-end part with marker loaders and a spy provider",
         "text": "Exploration with an exhaustive part (quick: 3 814 expressions x 1 329 stacks; thorough: 8 831 x 21 714) plus sampled and end-to-end parts; documented examples are fixed probes.",
